@@ -455,4 +455,74 @@ pub fn run(ctx: &mut Ctx) {
         let cap = match r.below(4) { 0 => nflows - 1, 1 => 1, _ => nflows + r.below(3) as usize };
         emit_packets(ctx, cap, &pks, r.chance(1, 2));
     }
+    run_worker_path(ctx);
+}
+
+/// Per-worker path (C08 "sequential and per-worker"): the segments of a ClientHello are dispatched to a real
+/// TLS WorkerPool with idle gaps LONGER than the workers' receive timeout between them; exactly one result,
+/// equal to the single-segment result, must still come out. The driver compares with the sequential analyzer's
+/// result for the same segments (model = spec = sequential).
+fn run_worker_path(ctx: &mut Ctx) {
+    use std::sync::mpsc;
+    use std::time::{Duration, Instant};
+    let mut r = ctx.rng.fork();
+    let rounds = ctx.n(4, 40);
+    for k in 0..rounds {
+        let hello = crate::net::client_hello(&mut r);
+        let ncut = r.range(1, 3) as usize;
+        let parts = crate::net::split_random(&mut r, &hello, ncut + 1);
+        let n = *r.pick(&[1usize, 2, 4]);
+        let timeout_ms = 3u64;
+        let c = (crate::net::v4(0x0a50_0000 + k as u32), 41000);
+        let sv = (crate::net::v4(0x0a51_0001), 443);
+        let mut seq = 1u32;
+        let frames: Vec<Vec<u8>> = parts
+            .iter()
+            .map(|p| {
+                let mut g = crate::net::Seg::new(c, sv, crate::net::ACK | crate::net::PSH);
+                g.seq = seq;
+                seq = seq.wrapping_add(p.len() as u32);
+                g.payload = p.clone();
+                crate::net::eth_bytes(&g)
+            })
+            .collect();
+        // sequential reference
+        let mut cache: ttl_cache::TtlCache<huginn_net_tls::FlowKey, huginn_net_tls::TlsClientHelloReader> = ttl_cache::TtlCache::new(100);
+        let mut seq_out: Vec<String> = vec![];
+        for f in &frames {
+            if let huginn_net_tls::packet_parser::IpPacket::Ipv4(ip) = huginn_net_tls::packet_parser::parse_packet(f) {
+                if let Ok(Some(o)) = huginn_net_tls::process_ipv4_packet(&ip, &mut cache) {
+                    seq_out.push(crate::canon::tls_sig(&o.sig));
+                }
+            }
+        }
+        // worker pool with idle gaps
+        let (tx, rx) = mpsc::channel();
+        let pool = huginn_net_tls::WorkerPool::new(n, 64, 8, timeout_ms, tx, 100, None).unwrap();
+        let mut queued = true;
+        for (i, f) in frames.iter().enumerate() {
+            if i > 0 {
+                std::thread::sleep(Duration::from_millis(timeout_ms * 8));
+            }
+            queued &= pool.dispatch(f.clone()) == huginn_net_tls::DispatchResult::Queued;
+        }
+        let mut got: Vec<String> = vec![];
+        let deadline = Instant::now() + Duration::from_millis(400);
+        while Instant::now() < deadline {
+            match rx.recv_timeout(Duration::from_millis(50)) {
+                Ok(o) => got.push(crate::canon::tls_sig(&o.sig)),
+                Err(mpsc::RecvTimeoutError::Timeout) => {
+                    if !got.is_empty() {
+                        break;
+                    }
+                }
+                Err(_) => break,
+            }
+        }
+        pool.shutdown();
+        let mut l = Line::op("C08.pool");
+        l.usize(n).usize(frames.len()).text(&seq_out.join(";"));
+        let out = if !queued { "OVERFLOW".to_string() } else { got.join(";") };
+        ctx.emit(l.finish(&out));
+    }
 }
